@@ -178,6 +178,9 @@ def env_faults(rng, events, op, files, outcome, rule_rel="rule.yaml", input_rel=
             for kind in ("prog_absent", "prog_eacces", "fork_enomem", "fork_eagain"):
                 out.append({"kind": kind, "label": f"{kind}:objdump"})
             out.append({"kind": "rc", "code": 1, "stdout": "none", "stderr": "objdump: in.bin: file format not recognized", "label": "rc1_nostdout:objdump"})
+            out.append({"kind": "rc", "code": 1, "stdout": rng.choice(["none", "torn"]), "tear": rng.random(),
+                        "stderr": rng.choice(["objdump: warning: section has no contents", "objdump: in.bin: file truncated", "objdump: out of memory allocating 4096 bytes", "objdump: in.bin: Permission denied", ""]),
+                        "label": "rc1_otherstderr:objdump"})
             out.append({"kind": "rc", "code": 1, "stdout": "full", "stderr": "objdump: warning then error", "label": "rc1_fullstdout:objdump"})
             out.append({"kind": "rc", "code": rng.choice([3, 64, 126, 255]), "stdout": "full", "stderr": "objdump: odd exit status", "label": "rcN_fullstdout:objdump"})
             out.append({"kind": "rc", "code": 2, "stdout": "torn", "tear": rng.random(), "stderr": "objdump: read error", "label": "rc2_tornstdout:objdump"})
